@@ -378,6 +378,75 @@ def unit_plan_adjoint(version, level):
     return run
 
 
+# ------------------------------------------------------------------ radial grid <-> atomic-orbital basis: same kernel on the same index pairs
+def unit_rad_orb(ctx):
+    """contract_rad_to_orb / contract_orb_to_rad loop over the (shell, radial point) pairs of an atom in two different orders (shells of the basis set
+    outermost vs radial points outermost), so their iteration spaces coincide only through the consistency invariants of the C-built basis struct
+    (bas[ish].atom = a  <=>  atom_loc_ao[a] <= ish < atom_loc_ao[a+1];  ar_loc[r] = a  <=>  ra_loc[a] <= r < ra_loc[a+1]) — assumed here.  Decided: for a
+    pair (shell ish, radial point r, component m, control point q) both routines touch the transposed pair of elements with the same coefficient, and
+    neither direction is restricted by a data-dependent condition the other one lacks (a screening test in one direction only breaks adjointness)."""
+    rel = "mod_cider/convolutions.c"
+    fwd, bwd = "contract_rad_to_orb", "contract_orb_to_rad"
+    fq = ["lib/%s:%s" % (rel, fwd), "lib/%s:%s" % (rel, bwd)]
+    req = lambda a: [tm.mk_le(tm.ZERO, a["offset"]), tm.mk_le(a["offset"] + a["nalpha"], a["stride"])]
+    try:
+        sf, af, hf = summarise(rel, fwd, req)
+        sb, ab, hb = summarise(rel, bwd, req, shared=af)
+    except CUnsupported as e:
+        ctx.undecided("rad<->orb summarised", "left the supported C subset: %s" % e, fq)
+        return
+    ctx.assume("rad<->orb: iteration spaces of the two loop orders coincide under the struct invariants of atc_basis_set / AtomicGridsIndexer (atom_loc_ao vs bas[.].atom, ar_loc vs ra_loc; the latter proved in C19)")
+    Ff, badf = adjoint.families(sf, "p_uq", "theta_rlmq")
+    Fb, badb = adjoint.families(sb, "theta_rlmq", "p_uq")
+    Ff = [f for f in Ff if f.in_idx is not None]
+    Fb = [f for f in Fb if f.in_idx is not None]
+    ctx.holds("rad<->orb: both routines are linear with one accumulation family each", not badf and not badb and len(Ff) == 1 and len(Fb) == 1, "%d / %d families, nonlinear: %s" % (len(Ff), len(Fb), (badf + badb)[:1]), fq)
+    if len(Ff) != 1 or len(Fb) != 1:
+        return
+    F, B = Ff[0], Fb[0]
+
+    def roles(fam):
+        """loop variables by what they index: r in rads[.], ish in bas[8 ish + .], q innermost, m next"""
+        out = {}
+        allt = [tm.lift(fam.coef), tm.lift(fam.in_idx), tm.lift(fam.out_idx)]
+        qv = [q[0] for q in fam.qvars]
+        for t_ in allt:
+            for u in tm.subterms(t_).values():
+                if u.op == "f" and u.args[0] == "rd:rads" and u.args[1] in qv:
+                    out["r"] = u.args[1]
+                if u.op == "fi" and u.args[0] == "atco.bas":
+                    for v in tm.free_vars(u.args[1]):
+                        if v in qv:
+                            out["ish"] = v
+        rest = [v for v in qv if v not in out.values()]
+        if len(rest) >= 2:
+            out["m"], out["q"] = rest[-2], rest[-1]
+        return out
+    rf, rb = roles(F), roles(B)
+    ok_roles = all(k in rf and k in rb for k in ("r", "ish", "m", "q"))
+    ctx.holds("rad<->orb: loop structure recognised (shell, radial point, component, control point)", ok_roles, "%s / %s" % (sorted(rf), sorted(rb)), fq)
+    if not ok_roles:
+        return
+    ren = {rb[k]: rf[k] for k in ("r", "ish", "m", "q")}
+    sub = lambda t_: tm.substitute(tm.lift(t_), ren)
+    H = list(hf) + dedupe_assumes(sf, sb)       # includes the definitions of the named iteration counts (niter = nalpha for nalpha >= 0)
+    ctx.equal("rad<->orb: backward reads the element forward writes (p_uq index)", H, sub(B.in_idx), F.out_idx, fq)
+    ctx.equal("rad<->orb: backward writes the element forward reads (theta_rlmq index)", H, sub(B.out_idx), F.in_idx, fq)
+    ctx.equal("rad<->orb: same coefficient coef * r^l * exp(-beta r^2) in both directions", H, sub(B.coef), F.coef, fq, replay=replay_rad_orb())
+    data = lambda fam: [g for g in fam.guards if any(u.op == "f" and u.args[0].startswith("rd:") for u in tm.subterms(tm.lift(g)).values())]
+    df, db = data(F), [sub(g) for g in data(B)]
+    same = len(df) == len(db) and all(any(x is y for y in db) for x in df)
+    ctx.holds("rad<->orb: neither direction is restricted by a data-dependent condition the other lacks", same,
+              "forward: %s; backward: %s" % ([tm.show(g, 60) for g in df], [tm.show(g, 60) for g in db]), fq, replay=replay_rad_orb())
+    ctx.canary("rad<->orb canary", H, sub(B.coef), 2 * tm.lift(F.coef))
+
+
+def replay_rad_orb():
+    def replay(wit):
+        return {"reproduced": None, "note": "needs a C-built atc_basis_set; see the seeded demonstration for a native run"}
+    return replay
+
+
 # ------------------------------------------------------------------ interpolation-coefficient transform of the Gaussian plan (all four call forms)
 def unit_plan_transform(order):
     """NLDFGaussianPlan._get_transformed_interpolation_terms: forward = A^-1 N, backward = N A^-T (N = diag(alpha_norms)); the solve is the LAPACK contract
@@ -455,7 +524,7 @@ def replay_plan_transform(order):
 
 
 def unit_registry(ctx):
-    for what in ("multiply_atc_integrals / multiply_atc_integrals_vk (dgemm + pair tables of convolution_collection)", "contract_rad_to_orb / contract_orb_to_rad",
+    for what in ("multiply_atc_integrals / multiply_atc_integrals_vk (dgemm + pair tables of convolution_collection)", "contract_rad_to_orb / contract_orb_to_rad: iteration-space equality (only the local kernel / index / guard agreement is under contract, unit rad-orb)",
                  "compute_mol_convs_* / compute_pot_convs_*",
                  "LCAOInterpolator._interpolate_nopar_atom and the Python forward / backward chains",
                  "SDMXBasePlan.get_features / get_vxc", "SDMXcontract_ao_to_bas_l1 / _l1_bwd (scratch-buffer pattern outside the supported C subset)",
@@ -475,6 +544,7 @@ def units():
         u.append(("plan/%s/%s" % (version, level), unit_plan_adjoint(version, level)))
     for order in ("gq", "qg"):
         u.append(("plan-transform/" + order, unit_plan_transform(order)))
+    u.append(("rad-orb", unit_rad_orb))
     return u
 
 
